@@ -209,7 +209,7 @@ HLcreate(int32 file_id, uint16 tag, uint16 ref, int32 block_length, int32 number
 
     /* clear error stack and validate file record id */
     HEclear();
-    file_rec = HAatom_object(file_id);
+    file_rec = HIfile_rec(file_id);
 
     /* check args and create special tag */
     if (BADFREC(file_rec) || block_length < 0 || number_blocks < 0 || SPECIALTAG(tag) ||
@@ -405,11 +405,11 @@ HLconvert(int32 aid, int32 block_length, int32 number_blocks)
         HGOTO_ERROR(DFE_ARGS, FAIL);
 
     /* get the access_rec pointer */
-    if ((access_rec = HAatom_object(aid)) == NULL)
+    if ((access_rec = HIaccess_rec(aid)) == NULL)
         HGOTO_ERROR(DFE_ARGS, FAIL);
 
     file_id  = access_rec->file_id;
-    file_rec = HAatom_object(file_id);
+    file_rec = HIfile_rec(file_id);
     if (BADFREC(file_rec))
         HGOTO_ERROR(DFE_ARGS, FAIL);
 
@@ -558,7 +558,7 @@ HDinqblockinfo(int32 aid, int32 *length, int32 *first_length, int32 *block_lengt
     int       ret_value = SUCCEED;
 
     HEclear();
-    if ((arec = HAatom_object(aid)) == (accrec_t *)NULL)
+    if ((arec = HIaccess_rec(aid)) == (accrec_t *)NULL)
         HGOTO_ERROR(DFE_BADAID, FAIL);
 
     if (arec->special != SPECIAL_LINKED)
@@ -1749,7 +1749,7 @@ HLsetblockinfo(int32 aid,        /* access record id */
         HGOTO_ERROR(DFE_ARGS, FAIL);
 
     /* get the access record */
-    if ((access_rec = HAatom_object(aid)) == NULL)
+    if ((access_rec = HIaccess_rec(aid)) == NULL)
         HGOTO_ERROR(DFE_ARGS, FAIL);
 
     /* If this element is already stored as linked-block, do not allow
@@ -1806,7 +1806,7 @@ HLgetblockinfo(int32  aid,        /* access record id */
     HEclear();
 
     /* get the access record */
-    if ((access_rec = HAatom_object(aid)) == NULL)
+    if ((access_rec = HIaccess_rec(aid)) == NULL)
         HGOTO_ERROR(DFE_ARGS, FAIL);
 
     /* get the linked-block size and the number of linked-blocks if requested */
